@@ -290,6 +290,88 @@ fn check_split_domain(n: usize) -> Res {
     r
 }
 
+/// Intermediate-state sparsity for the complex transform (see C11): real polynomials whose residues modulo the
+/// partial factors X^m - zeta (zeta^(n/m) = -1; conjugate roots carry conjugate residues) have each half-block zero
+/// or dense. Oracle: the defining sums over the slot roots read off fft(X), and the round trip.
+fn check_fft_sparsity(n: usize) -> Res {
+    let mut r = Res::default();
+    if n < 8 {
+        return r;
+    }
+    let x_n: Vec<C> = (0..n).map(|i| if i == 1 { (1.0, 0.0) } else { (0.0, 0.0) }).collect();
+    let roots = match catch(|| fh::complex_fft(&x_n)) {
+        Ok(v) => v,
+        Err(_) => return r,
+    };
+    let mut levels: Vec<usize> = vec![n / 2, n / 4, n / 8, 8, 16];
+    levels.retain(|&m| m >= 2 && m < n);
+    levels.sort();
+    levels.dedup();
+    for m in levels {
+        let b = n / m;
+        let zeta: Vec<C> = (0..b).map(|i| { let ang = std::f64::consts::PI * (2 * i + 1) as f64 / b as f64; (ang.cos(), ang.sin()) }).collect();
+        let indep = (b / 2).max(1);
+        for pat in super::c11::sparsity_patterns(2 * indep) {
+            // residues on the independent blocks, conjugates on the mirrored ones
+            let res_at = |blk: usize, p: usize| -> C {
+                let (ib, conj) = if blk < indep { (blk, false) } else { (b - 1 - blk, true) };
+                let h = 2 * ib + if p >= m / 2 { 1 } else { 0 };
+                if !pat[h] {
+                    return (0.0, 0.0);
+                }
+                let v = ((((ib * 37 + p * 11 + 5) % 41) as f64) - 20.0 + 0.5, (((ib * 53 + p * 7 + 3) % 37) as f64) - 18.0 + 0.25);
+                if conj { (v.0, -v.1) } else { v }
+            };
+            let mut a = vec![0.0f64; n];
+            for c in 0..b {
+                for p in 0..m {
+                    let mut acc = (0.0, 0.0);
+                    for blk in 0..b {
+                        let rv = res_at(blk, p);
+                        if rv != (0.0, 0.0) {
+                            // zeta_blk^(-c)
+                            let ang = -std::f64::consts::PI * ((2 * blk + 1) * c) as f64 / b as f64;
+                            let t = cmul(rv, (ang.cos(), ang.sin()));
+                            acc = (acc.0 + t.0, acc.1 + t.1);
+                        }
+                    }
+                    a[c * m + p] = acc.0 / b as f64;
+                }
+            }
+            let _ = &zeta;
+            let anorm = a.iter().map(|x| x * x).sum::<f64>().sqrt().max(1e-300);
+            let ra: Vec<C> = a.iter().map(|&x| (x, 0.0)).collect();
+            let case = json!({"kind":"fft-sparsity","n":n,"m":m});
+            let dense: Vec<usize> = pat.iter().enumerate().filter(|(_, x)| **x).map(|(i, _)| i).collect();
+            match catch(|| { let f = fh::complex_fft(&ra); let back = fh::complex_ifft(&f); (f, back) }) {
+                Err(e) => record(&mut r, Err(e), format!("fft:sparsity:n={}", n), |_| String::new(), case, 2),
+                Ok((f, back)) => {
+                    let mut worst: f64 = 0.0;
+                    for k in 0..n {
+                        // a(root_k) by Horner
+                        let mut acc = (0.0, 0.0);
+                        for j in (0..n).rev() {
+                            acc = cmul(acc, roots[k]);
+                            acc.0 += a[j];
+                        }
+                        worst = worst.max((f[k].0 - acc.0).abs()).max((f[k].1 - acc.1).abs());
+                    }
+                    // the transform has norm sqrt(n) ||a||: the allowance is relative to the operand norm as the property states
+                    let rel_f = worst / (TOL * anorm * (n as f64).sqrt());
+                    let mut wb: f64 = 0.0;
+                    for k in 0..n {
+                        wb = wb.max((back[k].0 - a[k]).abs()).max(back[k].1.abs());
+                    }
+                    let rel_b = wb / (TOL * anorm);
+                    let rel = if rel_f.is_finite() && rel_b.is_finite() { rel_f.max(rel_b) } else { f64::INFINITY };
+                    record(&mut r, Ok(rel), format!("fft:sparsity:n={}", n), |x| format!("n={}: fft / ifft on the real polynomial whose residues modulo X^{} - zeta have dense halves {:?} (zero elsewhere) is off by {:.3e} x the allowed 2^-30 of the operand norm", n, m, dense, x), case, 2);
+                }
+            }
+        }
+    }
+    r
+}
+
 fn record(r: &mut Res, rel: Result<f64, String>, key: String, what: impl Fn(f64) -> String, case: Value, calls: u64) {
     r.cases += 1;
     r.calls += calls;
@@ -411,6 +493,18 @@ pub fn run(tier: Tier) {
         }
     }
     pd.exhaustive = true;
+    let fres: Vec<(usize, Res)> = sizes.par_iter().map(|&n| (n, check_fft_sparsity(n))).collect();
+    let mut pf = Part::new("intermediate_sparsity", "every n >= 8: real polynomials built so that their residues modulo the partial factors X^m - zeta of X^n+1 (m in {n/2, n/4, n/8, 8, 16}; conjugate roots carry conjugate residues) have each half-block zero or dense (all patterns up to 8 halves, singles / pairs / periodic beyond): fft against the defining sums over the slot roots, ifft back to the input, tolerance 2^-30 of the operand norm");
+    for (n, r) in fres {
+        pf.states += r.cases;
+        pf.transitions += r.calls;
+        pf.validated += r.cases;
+        pf.outcome(format!("n={} worst error = 2^{:.1} of the allowance", n, r.worst.max(1e-300).log2()));
+        for f in r.found {
+            ctx.violation(f.key, f.what, f.case);
+        }
+    }
+    pf.exhaustive = true;
     let mut worst = (0.0f64, 0.0f64, 0.0f64);
     for (n, (b, p, c)) in res {
         for (part, r, w) in [(&mut pb, &b, &mut worst.0), (&mut pp, &p, &mut worst.1), (&mut pc, &c, &mut worst.2)] {
@@ -435,6 +529,7 @@ pub fn run(tier: Tier) {
     ctx.add_part(pc);
     ctx.add_part(ps);
     ctx.add_part(pd);
+    ctx.add_part(pf);
 
     // informational: distance of the precomputed table from cos/sin (not a verdict)
     let table = fh::complex_table();
@@ -452,6 +547,9 @@ pub fn run(tier: Tier) {
 
 pub fn replay(case: &Value) -> Result<Option<String>, String> {
     let n = case.get("n").and_then(|x| x.as_u64()).ok_or("n")? as usize;
+    if case.get("kind").and_then(|x| x.as_str()) == Some("fft-sparsity") {
+        return Ok(check_fft_sparsity(n).found.into_iter().next().map(|f| f.what));
+    }
     if case.get("kind").and_then(|x| x.as_str()) == Some("split-domain") {
         return Ok(check_split_domain(n).found.into_iter().next().map(|f| f.what));
     }
